@@ -126,6 +126,7 @@ func (e *Exec) tmEnvStep(st *State, ti *tmInfo) {
 		cur := e.memGet(st, t.key, t.sort)
 		elemSort := strings.TrimSuffix(strings.TrimPrefix(t.sort, "(Array Int "), ")")
 		nv := e.sc.fresh("env."+t.key, elemSort)
+		e.assume(st, e.wfBySort(st, nv, elemSort))
 		e.memSet(st, t.key, t.sort, fmt.Sprintf("(store %s %s %s)", cur, t.ref, nv))
 	}
 	for _, cl := range ti.invs {
@@ -255,6 +256,35 @@ func tmAtomicHook(e *Exec, st *State, name string, cc *ssa.CallCommon, args []Va
 
 func installHooks(eng *Engine, prop string) {
 	eng.tmAtomic = tmAtomicHook
+	eng.allocHook = allocHook
+}
+
+// allocHook (C05): an allocation whose element count is not a constant must be
+// small (<= 65536 elements) or bounded by the contract's `alloc_bound` expression
+// evaluated at function entry (the bytes actually received).
+func allocHook(e *Exec, st *State, x ssa.Instruction, l, c string) {
+	fc := e.fc
+	if fc == nil || e.curFn != e.fn {
+		return
+	}
+	bound, ok := fc.Flags["alloc_bound"]
+	if !ok {
+		return
+	}
+	if ms, ok := x.(*ssa.MakeSlice); ok {
+		if _, isC := ms.Cap.(*ssa.Const); isC {
+			return
+		}
+	}
+	cc := e.specEnv(e.entry, nil)
+	bv, err := cc.evalExpr(bound)
+	if err != nil {
+		e.note("CONTRACT-ERROR alloc_bound: %v", err)
+		return
+	}
+	bv, _ = cc.def(bv)
+	small := e.le(c, e.sc.idxLit(65536))
+	e.checkPost(st, "alloc", e.srcText(x.Pos()), or(small, e.le(c, bv.S)), []string{"C05"}, e.eng.posString(x.Pos()))
 }
 
 // tmInitGhosts creates the ghost variables of every shared family touched by
